@@ -1,6 +1,7 @@
 package isaacdatabase
 
 import (
+	"bytes"
 	"context"
 	"math"
 
@@ -364,7 +365,20 @@ func (db *LeveldbPermanent) mergeTempDatabaseFromLeveldb(ctx context.Context, te
 	batch := pst.NewBatch()
 	defer batch.Reset()
 
+	// NOTE the blockmap is the commit point of the merge; the batches are written without any order between them, so
+	// the blockmap is kept back and written only after all the other records are stored. If the merge is interrupted
+	// before that, the last blockmap of the permanent database is still the previous one and the temp database is
+	// loaded again.
+	mapbatch := pst.NewBatch()
+	defer mapbatch.Reset()
+
 	if err := tpst.Iter(nil, func(k, v []byte) (bool, error) {
+		if bytes.HasPrefix(k, leveldbKeyPrefixBlockMap[:]) {
+			mapbatch.Put(k, v)
+
+			return true, nil
+		}
+
 		if batch.Len() == db.batchlimit {
 			b := batch
 
@@ -396,6 +410,12 @@ func (db *LeveldbPermanent) mergeTempDatabaseFromLeveldb(ctx context.Context, te
 
 	if err := worker.Wait(); err != nil {
 		return e.Wrap(err)
+	}
+
+	if mapbatch.Len() > 0 {
+		if err := pst.Batch(mapbatch, nil); err != nil {
+			return e.Wrap(err)
+		}
 	}
 
 	_ = db.updateLast(
